@@ -18,8 +18,8 @@ PROPS = {
 }
 # which scenario families a property draws its traces from (its own first)
 FOCUS = {
-    "C01": ["c01", "c04", "c09"], "C02": ["c02", "c07"], "C03": ["c03", "c02"], "C04": ["c04", "c01", "c10", "c09"],
-    "C18": ["c04", "c07", "c05"], "C05": ["c05"], "C06": ["c06", "c02", "c08"], "C07": ["c07"], "C08": ["c08", "c06"], "C09": ["c09"], "C10": ["c10", "c04"],
+    "C01": ["c01", "c04", "c09", "syncall"], "C02": ["c02", "c07"], "C03": ["c03", "c02", "c03cloud", "syncall"], "C04": ["c04", "c01", "c10", "c09", "syncall"],
+    "C18": ["c04", "c07", "c05"], "C05": ["c05", "syncall"], "C06": ["c06", "c02", "c08"], "C07": ["c07"], "C08": ["c08", "c06"], "C09": ["c09"], "C10": ["c10", "c04"],
 }
 # a trace is non-trivial for the property if it contains ...
 def relevant(pid, lines):
